@@ -437,7 +437,7 @@ class Server(object):
         reply.send(self.io)
         self._check_close_code(reply)
 
-        self.have_rcptto = self.have_rcptto or (reply.code == '250')
+        self.have_rcptto = self.have_rcptto or (reply.code in ('250', '251'))
 
     def _command_DATA(self, arg):
         if arg:
